@@ -510,6 +510,21 @@ def _bound(E, ci, q, t):
     return USZ(v)
 
 
+@intrinsic('digest_hex')
+def _digest_hex(E, ci, alg, data):
+    from .models_env import digest_bytes, ALG_BY_INDEX
+    out = digest_bytes(E, ALG_BY_INDEX[alg.v], list(items_of(data)))
+    hexs = []
+    for b in out:
+        if b.conc():
+            hexs += lit('%02x' % b.v)
+            continue
+        for sh in (4, 0):
+            nib8 = z3.ZeroExt(4, z3.Extract(3, 0, z3.LShR(b.v, sh)))
+            hexs.append(from_z('u8', z3.If(z3.ULT(nib8, 10), nib8 + 48, nib8 + 87)))
+    return VecV(hexs, 'String')
+
+
 @intrinsic('hex')
 def _hexi(E, ci, b):
     raise ModelGap('sym::hex is native-only')
